@@ -559,6 +559,8 @@ inductive Block
   | cons (s : Stmt) (b : Block)
 end
 
+deriving instance DecidableEq for Stmt, Block
+
 instance : Inhabited Stmt := ⟨.pass⟩
 instance : Inhabited Block := ⟨.nil⟩
 
